@@ -305,7 +305,6 @@ Definition sp_splice (c : cfg) (st : astate) (nx : N) (v : nat) (sb eb : bound) 
   match rk, wrong_at with
   | RLazy _, _ | _, Some _ => None
   | _, None =>
-    if negb (claimed =? n) then None else
     match get_a v st with
     | None => None
     | Some a =>
@@ -325,14 +324,18 @@ Definition sp_splice (c : cfg) (st : astate) (nx : N) (v : nat) (sb eb : bound) 
               match f with
               | FinForget => Some (ok_res (N.of_nat (e - s) :: rets) yielded kept nx')
               | FinDrop =>
-                  let new_len := N.of_nat s + n + N.of_nat (length xs - e) in
+                  (* the iterator yields [n] items but announces [claimed] (first answer): storage is
+                     prepared for the announcement, only what is really delivered - and fits - goes in *)
+                  let written := Nat.min (N.to_nat claimed) (N.to_nat n) in
+                  let new_len := N.of_nat s + claimed + N.of_nat (length xs - e) in
                   if usize_max <? new_len then Some (panic_res POverflow (yielded ++ item_drops) kept nx')
                   else if (match acap c (a_bk a) with Some cap => cap <? new_len | None => false end)
                   then Some (panic_res PCapacity (yielded ++ item_drops) kept nx')
                   else Some (ok_res (N.of_nat (e - s) :: rets)
                                     (yielded ++ (if c_dg c then map EDrop (firstn (j - i) (skipn i xs)) else [])
-                                             ++ repeat ENext (N.to_nat n))
-                                    (set_a v (Some (with_xs a (VecSpec.sp_splice s e ts xs))) st) nx')
+                                             ++ repeat ENext (Nat.min (N.to_nat claimed) (S (N.to_nat n)))
+                                             ++ (if c_dg c then map EDrop (skipn written ts) else []))
+                                    (set_a v (Some (with_xs a (VecSpec.sp_splice s e (firstn written ts) xs))) st) nx')
               end
           end
       end
@@ -519,16 +522,13 @@ Definition sp_offer_userlazy (c : cfg) (st : astate) (nx : N) (v : nat) (idx : o
 (** the fragment: by-value or boxed replacement values, all of the right type, honest size hint *)
 Lemma sp_splice_inv c st nx v sb eb pat f rk n wrong_at claimed r :
   sp_splice c st nx v sb eb pat f rk n wrong_at claimed = Some r ->
-  (rk = RWrap \/ rk = RBox) /\ wrong_at = None /\ claimed = n /\
-  sp_splice c st nx v sb eb pat f RWrap n None n = Some r.
+  (rk = RWrap \/ rk = RBox) /\ wrong_at = None /\
+  sp_splice c st nx v sb eb pat f RWrap n None claimed = Some r.
 Proof.
   unfold sp_splice. intros H.
   destruct wrong_at as [x|]; [destruct rk; discriminate|].
   assert (Hrk : rk = RWrap \/ rk = RBox) by (destruct rk; [left|right|discriminate]; reflexivity).
-  assert (Hc : claimed = n).
-  { destruct (N.eqb_spec claimed n) as [E|NE]; [exact E|]. destruct rk; discriminate. }
-  subst claimed. rewrite N.eqb_refl in *. cbn [negb] in *.
-  split; [exact Hrk|]. split; [reflexivity|]. split; [reflexivity|].
+  split; [exact Hrk|]. split; [reflexivity|].
   destruct Hrk as [-> | ->]; exact H.
 Qed.
 
